@@ -41,98 +41,104 @@ VARIABLES
   dpc,        \* drainer pc: off loop cls exit
   dconn,      \* connection held by the drainer
   ctxDone, closed, chanClosed, readers, wOwner,
-  cancelled,  \* parent cancel happened
+  xpc,        \* parent cancel: idle call ret done
   returned,   \* returned[i]: times connection i was returned by an accept
   cclosed,    \* cclosed[i] : times connection i was closed
   closeRet    \* some Close has returned
 
 vars == <<ipc, apc, aconn, ares, aafter, cpc, dpc, dconn, ctxDone, closed, chanClosed, readers, wOwner,
-          cancelled, returned, cclosed, closeRet>>
+          xpc, returned, cclosed, closeRet>>
 
 Init ==
   /\ ipc = [i \in Ing |-> "idle"] /\ apc = [a \in Acc |-> "idle"] /\ aconn = [a \in Acc |-> 0]
   /\ ares = [a \in Acc |-> 0] /\ aafter = [a \in Acc |-> FALSE]
   /\ cpc = [k \in Cls |-> "idle"] /\ dpc = "off" /\ dconn = 0
   /\ ctxDone = FALSE /\ closed = FALSE /\ chanClosed = FALSE /\ readers = 0 /\ wOwner = 0
-  /\ cancelled = FALSE
+  /\ xpc = "idle"
   /\ returned = [i \in Ing |-> 0] /\ cclosed = [i \in Ing |-> 0] /\ closeRet = FALSE
 
 SpawnDrainer == IF dpc = "off" THEN "loop" ELSE dpc
 
 (* ---------------- IngressConn ---------------- *)
 IStart(i) == ipc[i] = "idle" /\ ipc' = [ipc EXCEPT ![i] = "rl"]
-             /\ UNCHANGED <<apc, aconn, ares, aafter, cpc, dpc, dconn, ctxDone, closed, chanClosed, readers, wOwner, cancelled, returned, cclosed, closeRet>>
+             /\ UNCHANGED <<apc, aconn, ares, aafter, cpc, dpc, dconn, ctxDone, closed, chanClosed, readers, wOwner, xpc, returned, cclosed, closeRet>>
 IRLock(i) == ipc[i] = "rl" /\ wOwner = 0 /\ readers' = readers + 1 /\ ipc' = [ipc EXCEPT ![i] = "chk"]
-             /\ UNCHANGED <<apc, aconn, ares, aafter, cpc, dpc, dconn, ctxDone, closed, chanClosed, wOwner, cancelled, returned, cclosed, closeRet>>
+             /\ UNCHANGED <<apc, aconn, ares, aafter, cpc, dpc, dconn, ctxDone, closed, chanClosed, wOwner, xpc, returned, cclosed, closeRet>>
 IChk(i) == ipc[i] = "chk" /\ ipc' = [ipc EXCEPT ![i] = IF closed THEN "cls" ELSE "send"]
-           /\ UNCHANGED <<apc, aconn, ares, aafter, cpc, dpc, dconn, ctxDone, closed, chanClosed, readers, wOwner, cancelled, returned, cclosed, closeRet>>
+           /\ UNCHANGED <<apc, aconn, ares, aafter, cpc, dpc, dconn, ctxDone, closed, chanClosed, readers, wOwner, xpc, returned, cclosed, closeRet>>
 ICloseConn(i) == ipc[i] = "cls" /\ cclosed' = [cclosed EXCEPT ![i] = @ + 1] /\ ipc' = [ipc EXCEPT ![i] = "unl"]
-                 /\ UNCHANGED <<apc, aconn, ares, aafter, cpc, dpc, dconn, ctxDone, closed, chanClosed, readers, wOwner, cancelled, returned, closeRet>>
+                 /\ UNCHANGED <<apc, aconn, ares, aafter, cpc, dpc, dconn, ctxDone, closed, chanClosed, readers, wOwner, xpc, returned, closeRet>>
 IUnlock(i) == ipc[i] = "unl" /\ readers' = readers - 1 /\ ipc' = [ipc EXCEPT ![i] = "ret"]
-              /\ UNCHANGED <<apc, aconn, ares, aafter, cpc, dpc, dconn, ctxDone, closed, chanClosed, wOwner, cancelled, returned, cclosed, closeRet>>
+              /\ UNCHANGED <<apc, aconn, ares, aafter, cpc, dpc, dconn, ctxDone, closed, chanClosed, wOwner, xpc, returned, cclosed, closeRet>>
 IReturn(i) == ipc[i] = "ret" /\ ipc' = [ipc EXCEPT ![i] = "done"]
-              /\ UNCHANGED <<apc, aconn, ares, aafter, cpc, dpc, dconn, ctxDone, closed, chanClosed, readers, wOwner, cancelled, returned, cclosed, closeRet>>
+              /\ UNCHANGED <<apc, aconn, ares, aafter, cpc, dpc, dconn, ctxDone, closed, chanClosed, readers, wOwner, xpc, returned, cclosed, closeRet>>
 
 (* ---------------- Accept ---------------- *)
 AStart(a) == apc[a] = "idle" /\ apc' = [apc EXCEPT ![a] = "sel"] /\ aafter' = [aafter EXCEPT ![a] = closeRet]
-             /\ UNCHANGED <<ipc, aconn, ares, cpc, dpc, dconn, ctxDone, closed, chanClosed, readers, wOwner, cancelled, returned, cclosed, closeRet>>
+             /\ UNCHANGED <<ipc, aconn, ares, cpc, dpc, dconn, ctxDone, closed, chanClosed, readers, wOwner, xpc, returned, cclosed, closeRet>>
 \* select picks ctx.Done: drainConnections, then ErrClosed
 ASelCtx(a) == apc[a] = "sel" /\ ctxDone /\ dpc' = SpawnDrainer /\ apc' = [apc EXCEPT ![a] = "ret"] /\ ares' = [ares EXCEPT ![a] = -1]
-              /\ UNCHANGED <<ipc, aconn, aafter, cpc, dconn, ctxDone, closed, chanClosed, readers, wOwner, cancelled, returned, cclosed, closeRet>>
+              /\ UNCHANGED <<ipc, aconn, aafter, cpc, dconn, ctxDone, closed, chanClosed, readers, wOwner, xpc, returned, cclosed, closeRet>>
 \* select picks the receive on a closed channel
 ASelClosed(a) == apc[a] = "sel" /\ chanClosed /\ apc' = [apc EXCEPT ![a] = "ret"] /\ ares' = [ares EXCEPT ![a] = -1]
-                 /\ UNCHANGED <<ipc, aconn, aafter, cpc, dpc, dconn, ctxDone, closed, chanClosed, readers, wOwner, cancelled, returned, cclosed, closeRet>>
+                 /\ UNCHANGED <<ipc, aconn, aafter, cpc, dpc, dconn, ctxDone, closed, chanClosed, readers, wOwner, xpc, returned, cclosed, closeRet>>
 \* rendezvous with a blocked sender
 ARecv(a, i) == apc[a] = "sel" /\ ipc[i] = "send" /\ ~chanClosed
                /\ ipc' = [ipc EXCEPT ![i] = "unl"] /\ apc' = [apc EXCEPT ![a] = "chk"] /\ aconn' = [aconn EXCEPT ![a] = i]
-               /\ UNCHANGED <<ares, aafter, cpc, dpc, dconn, ctxDone, closed, chanClosed, readers, wOwner, cancelled, returned, cclosed, closeRet>>
+               /\ UNCHANGED <<ares, aafter, cpc, dpc, dconn, ctxDone, closed, chanClosed, readers, wOwner, xpc, returned, cclosed, closeRet>>
 \* re-check of the context after the receive
 AChk(a) == apc[a] = "chk"
            /\ (IF ctxDone THEN apc' = [apc EXCEPT ![a] = "cls"] /\ UNCHANGED ares
                ELSE apc' = [apc EXCEPT ![a] = "ret"] /\ ares' = [ares EXCEPT ![a] = aconn[a]])
-           /\ UNCHANGED <<ipc, aconn, aafter, cpc, dpc, dconn, ctxDone, closed, chanClosed, readers, wOwner, cancelled, returned, cclosed, closeRet>>
+           /\ UNCHANGED <<ipc, aconn, aafter, cpc, dpc, dconn, ctxDone, closed, chanClosed, readers, wOwner, xpc, returned, cclosed, closeRet>>
 ACloseConn(a) == apc[a] = "cls" /\ cclosed' = [cclosed EXCEPT ![aconn[a]] = @ + 1]
                  /\ apc' = [apc EXCEPT ![a] = "ret"] /\ ares' = [ares EXCEPT ![a] = -1]
-                 /\ UNCHANGED <<ipc, aconn, aafter, cpc, dpc, dconn, ctxDone, closed, chanClosed, readers, wOwner, cancelled, returned, closeRet>>
+                 /\ UNCHANGED <<ipc, aconn, aafter, cpc, dpc, dconn, ctxDone, closed, chanClosed, readers, wOwner, xpc, returned, closeRet>>
 AReturn(a) == apc[a] = "ret" /\ apc' = [apc EXCEPT ![a] = "done"]
               /\ returned' = (IF ares[a] > 0 THEN [returned EXCEPT ![ares[a]] = @ + 1] ELSE returned)
-              /\ UNCHANGED <<ipc, aconn, ares, aafter, cpc, dpc, dconn, ctxDone, closed, chanClosed, readers, wOwner, cancelled, cclosed, closeRet>>
+              /\ UNCHANGED <<ipc, aconn, ares, aafter, cpc, dpc, dconn, ctxDone, closed, chanClosed, readers, wOwner, xpc, cclosed, closeRet>>
 
 (* ---------------- Close ---------------- *)
 CStart(k) == cpc[k] = "idle" /\ cpc' = [cpc EXCEPT ![k] = "drain"]
-             /\ UNCHANGED <<ipc, apc, aconn, ares, aafter, dpc, dconn, ctxDone, closed, chanClosed, readers, wOwner, cancelled, returned, cclosed, closeRet>>
+             /\ UNCHANGED <<ipc, apc, aconn, ares, aafter, dpc, dconn, ctxDone, closed, chanClosed, readers, wOwner, xpc, returned, cclosed, closeRet>>
 CDrain(k) == cpc[k] = "drain" /\ ctxDone' = TRUE /\ dpc' = SpawnDrainer /\ cpc' = [cpc EXCEPT ![k] = "ann"]
-             /\ UNCHANGED <<ipc, apc, aconn, ares, aafter, dconn, closed, chanClosed, readers, wOwner, cancelled, returned, cclosed, closeRet>>
+             /\ UNCHANGED <<ipc, apc, aconn, ares, aafter, dconn, closed, chanClosed, readers, wOwner, xpc, returned, cclosed, closeRet>>
 \* Lock(): take the writer mutex and announce; new readers now wait
 CAnnounce(k) == cpc[k] = "ann" /\ wOwner = 0 /\ wOwner' = k /\ cpc' = [cpc EXCEPT ![k] = "wait"]
-                /\ UNCHANGED <<ipc, apc, aconn, ares, aafter, dpc, dconn, ctxDone, closed, chanClosed, readers, cancelled, returned, cclosed, closeRet>>
+                /\ UNCHANGED <<ipc, apc, aconn, ares, aafter, dpc, dconn, ctxDone, closed, chanClosed, readers, xpc, returned, cclosed, closeRet>>
 \* readers drained: critical section closed = true; close(incoming) once; Unlock
 CCrit(k) == cpc[k] = "wait" /\ readers = 0 /\ closed' = TRUE /\ chanClosed' = TRUE /\ wOwner' = 0 /\ cpc' = [cpc EXCEPT ![k] = "ret"]
-            /\ UNCHANGED <<ipc, apc, aconn, ares, aafter, dpc, dconn, ctxDone, readers, cancelled, returned, cclosed, closeRet>>
+            /\ UNCHANGED <<ipc, apc, aconn, ares, aafter, dpc, dconn, ctxDone, readers, xpc, returned, cclosed, closeRet>>
 CReturn(k) == cpc[k] = "ret" /\ cpc' = [cpc EXCEPT ![k] = "done"] /\ closeRet' = TRUE
-              /\ UNCHANGED <<ipc, apc, aconn, ares, aafter, dpc, dconn, ctxDone, closed, chanClosed, readers, wOwner, cancelled, returned, cclosed>>
+              /\ UNCHANGED <<ipc, apc, aconn, ares, aafter, dpc, dconn, ctxDone, closed, chanClosed, readers, wOwner, xpc, returned, cclosed>>
 
 (* ---------------- parent cancel, drainer ---------------- *)
-Cancel == WithCancel /\ ~cancelled /\ cancelled' = TRUE /\ ctxDone' = TRUE
-          /\ UNCHANGED <<ipc, apc, aconn, ares, aafter, cpc, dpc, dconn, closed, chanClosed, readers, wOwner, returned, cclosed, closeRet>>
+\* cancel() of the parent context: call, effect, return are separate steps (a recorder logs call and return)
+XStart == WithCancel /\ xpc = "idle" /\ xpc' = "call"
+          /\ UNCHANGED <<ipc, apc, aconn, ares, aafter, cpc, dpc, dconn, ctxDone, closed, chanClosed, readers, wOwner, returned, cclosed, closeRet>>
+XDo == xpc = "call" /\ xpc' = "ret" /\ ctxDone' = TRUE
+       /\ UNCHANGED <<ipc, apc, aconn, ares, aafter, cpc, dpc, dconn, closed, chanClosed, readers, wOwner, returned, cclosed, closeRet>>
+XReturn == xpc = "ret" /\ xpc' = "done"
+           /\ UNCHANGED <<ipc, apc, aconn, ares, aafter, cpc, dpc, dconn, ctxDone, closed, chanClosed, readers, wOwner, returned, cclosed, closeRet>>
 DRecv(i) == dpc = "loop" /\ ipc[i] = "send" /\ ~chanClosed /\ ipc' = [ipc EXCEPT ![i] = "unl"] /\ dpc' = "cls" /\ dconn' = i
-            /\ UNCHANGED <<apc, aconn, ares, aafter, cpc, ctxDone, closed, chanClosed, readers, wOwner, cancelled, returned, cclosed, closeRet>>
+            /\ UNCHANGED <<apc, aconn, ares, aafter, cpc, ctxDone, closed, chanClosed, readers, wOwner, xpc, returned, cclosed, closeRet>>
 DCloseConn == dpc = "cls" /\ cclosed' = [cclosed EXCEPT ![dconn] = @ + 1] /\ dpc' = "loop" /\ dconn' = 0
-              /\ UNCHANGED <<ipc, apc, aconn, ares, aafter, cpc, ctxDone, closed, chanClosed, readers, wOwner, cancelled, returned, closeRet>>
+              /\ UNCHANGED <<ipc, apc, aconn, ares, aafter, cpc, ctxDone, closed, chanClosed, readers, wOwner, xpc, returned, closeRet>>
 DExit == dpc = "loop" /\ chanClosed /\ dpc' = "exit"
-         /\ UNCHANGED <<ipc, apc, aconn, ares, aafter, cpc, dconn, ctxDone, closed, chanClosed, readers, wOwner, cancelled, returned, cclosed, closeRet>>
+         /\ UNCHANGED <<ipc, apc, aconn, ares, aafter, cpc, dconn, ctxDone, closed, chanClosed, readers, wOwner, xpc, returned, cclosed, closeRet>>
 
 Internal ==
   \/ \E i \in Ing : IRLock(i) \/ IChk(i) \/ ICloseConn(i) \/ IUnlock(i)
   \/ \E a \in Acc : ASelCtx(a) \/ ASelClosed(a) \/ AChk(a) \/ ACloseConn(a) \/ (\E i \in Ing : ARecv(a, i))
   \/ \E k \in Cls : CDrain(k) \/ CAnnounce(k) \/ CCrit(k)
   \/ (\E i \in Ing : DRecv(i)) \/ DCloseConn \/ DExit
+  \/ XDo
 
 CallsAndReturns ==
   \/ \E i \in Ing : IStart(i) \/ IReturn(i)
   \/ \E a \in Acc : AStart(a) \/ AReturn(a)
   \/ \E k \in Cls : CStart(k) \/ CReturn(k)
-  \/ Cancel
+  \/ XStart \/ XReturn
 
 Next == Internal \/ CallsAndReturns
 
@@ -148,7 +154,7 @@ NoSendOnClosed == \A i \in Ing : ~(ipc[i] = "send" /\ chanClosed)
 Settled == /\ \A i \in Ing : ipc[i] \in {"idle", "done"}
            /\ \A a \in Acc : apc[a] \in {"idle", "done"}
            /\ \A k \in Cls : cpc[k] \in {"idle", "done"}
-           /\ dpc \in {"off", "loop", "exit"}
+           /\ dpc \in {"off", "loop", "exit"} /\ xpc \in {"idle", "done"}
 Accounted == Settled => \A i \in Ing : ipc[i] = "done" => returned[i] + cclosed[i] = 1
 AcceptAfterClose == \A a \in Acc : (apc[a] \in {"ret", "done"} /\ aafter[a]) => ares[a] = -1
 TypeOK == readers \in 0..K /\ wOwner \in 0..C
